@@ -23,7 +23,8 @@ RULE = ('Generated Yahoo-format CSV files (1-2 symbols with different first date
         '-> NaN through the handler. Oracle 2 (metamorphic): the answer at t is bit-identical when every row whose '
         'open lies after t is rewritten or deleted and when the row order is permuted. Non-trivial = some row lies '
         'after t, or t precedes the first bar, or the answer needed a forward fill; distinct = distinct case JSON.'
-        ' Round-5 reach: a source quoting a spread (ask = 1.25 x bid) behind the handler (handler ask == source ask, handler bid == source bid); a fresh source asked about several symbols at instants that jump back and forth in time (second-level offsets so that memoised answers are not reused).')
+        ' Round-5 reach: a source quoting a spread (ask = 1.25 x bid) behind the handler (handler ask == source ask, handler bid == source bid); a fresh source asked about several symbols at instants that jump back and forth in time (second-level offsets so that memoised answers are not reused).'
+        " Round-10 reach: the first source of a case answers fresh instants again after every other source of the case and a differently priced decoy directory for the same symbols were built; a sixth of the files carry whole-number cells (no decimal point), some of ten digits.")
 ASSUMPTIONS = [
     'well-formed CSV files with a Date column and unique dates (duplicate dates and header-only files are rejected by '
     'the loader and are not in the domain)',
@@ -108,12 +109,15 @@ def run_case(case):
     nt = 0
     nq = 0
     with market.csv_dir(syms) as path:
+        first_ds = None
         for adjust in (True, False):
             if case.get('all_files'):
                 ds = q.CSVDailyBarDataSource(path, q.Equity, adjust_prices=adjust)          # every CSV of the directory
             else:
                 ds = q.CSVDailyBarDataSource(path, q.Equity, adjust_prices=adjust, csv_symbols=list(syms))
             dh = q.BacktestDataHandler(None, data_sources=[ds])
+            if first_ds is None:
+                first_ds = ds
             if case.get('naive_first'):
                 # the handler first receives a malformed request (a timestamp without a time zone); whatever it
                 # answers or raises, the valid requests that follow are answered as usual
@@ -214,6 +218,20 @@ def run_case(case):
                 m_ = dh.get_asset_latest_mid_price(t, 'EQ:NOPE')
                 if not (math.isnan(u) and math.isnan(m_)):
                     raise Violation('unknown symbol priced %r / %r through the handler' % (u, m_))
+        # the first source again, after every other source of this case (other adjustment, other symbol lists, and
+        # another vendor's differently priced files for the same symbols) was built in the same process
+        decoy = {n: [r[:3] + [None if x is None else round(x * 3.0, 4) for x in r[3:]] for r in rows] for n, rows in syms.items()}
+        with market.csv_dir(decoy) as path3:
+            q.CSVDailyBarDataSource(path3, q.Equity, adjust_prices=False, csv_symbols=list(syms))
+            for name, rows in syms.items():
+                obs = observations(rows, True)
+                for t in queries[:8]:
+                    t = t + pd.Timedelta(seconds=2)                 # (instants this source has not been asked about yet)
+                    exp = lookup(obs, t)[0]
+                    for k, g in (('get_bid', first_ds.get_bid(t, 'EQ:' + name)), ('get_ask', first_ds.get_ask(t, 'EQ:' + name))):
+                        if not same(float(g), exp):
+                            raise Violation('%s(%s, EQ:%s) adjust=True returned %r after other sources were built for the same '
+                                            'symbols; point-in-time answer is %r' % (k, t, name, g, exp))
         if case.get('session_built'):
             # the handler a BacktestTradingSession builds for itself (QSTRADER_CSV_DATA_DIR, default adjustment) for a
             # session starting and ending inside the file still answers every instant point-in-time
@@ -297,6 +315,11 @@ def cases(draw):
                                  subunit=draw(st.sampled_from([False, False, False, True])))
         if not rows:
             rows = market.build_rows(seed + i, d0 + D.timedelta(days=off + (7 - (d0 + D.timedelta(days=off)).weekday()) % 7), 1)
+        whole = draw(st.sampled_from([None] * 5 + [1, 100, 20000000]))
+        if whole:
+            # a vendor quoting whole numbers only (no decimal point anywhere in the file), possibly in a very small unit
+            rows = [r[:3] + [None if x is None else max(1, int(round(x * whole))) for x in r[3:]] for r in rows]
+            flags.append('whole_number_cells' if whole < 1000 else 'whole_number_cells_of_ten_digits')
         if 'shuffled' in flags:
             random.Random(seed).shuffle(rows)
         syms[n] = rows
